@@ -150,7 +150,20 @@ class Env(Engine):
             out.append(encode_case(d))
 
         protected_amb = {_hx("HOME"), _hx("PATH")}
+        # a variable used by a bare {{.N}} / $N must keep its (shell-safe) definition, or the shrunk case leaves
+        # the generated subset (an undefined bare reference prints "<no value>", which is not shell syntax)
+        bare = set()
+        for s in c["stmts"]:
+            if s["k"] == "T":
+                for cmd in s["cmds"]:
+                    if cmd[0] == "W":
+                        for pieces in cmd[1]:
+                            for pc in pieces:
+                                if pc[0] in ("R", "E"):
+                                    bare.add(pc[1])
         for i in range(len(c["stmts"])):
+            if c["stmts"][i]["k"] == "V" and c["stmts"][i]["name"] in bare:
+                continue
             d = copy.deepcopy(c)
             del d["stmts"][i]
             if any(s["k"] == "T" for s in d["stmts"]):
